@@ -96,7 +96,8 @@ Fixpoint nodupb (l : list Z) : bool :=
   end.
 
 (* windows are whole seconds >= 1 s (interval > 0 validated, units second..month) *)
-Definition wf_quota (d : quota) : bool := (sec <=? q_win d) && (q_win d mod sec =? 0).
+Definition wf_quota (d : quota) : bool :=
+  (sec <=? q_win d) && (q_win d mod sec =? 0) && (0 <=? q_max d).
 Definition wf_forest (f : forest) : bool :=
   forallb (fun qd => wf_quota (snd qd) &&
                      match chain_of f (fst qd) with
@@ -345,16 +346,31 @@ Fixpoint seq_run (f : forest) (w : world) (h : list (Z * request * Z)) : world *
   end.
 
 (* sums over the ghost logs *)
-Definition csum (k : key) (s : Z) (l : list charge) : Z :=
-  fold_right (fun c a => if key_eqb (c_key c) k && (c_ws c =? s) then c_cost c + a else a) 0 l.
-Definition ccount (k : key) (s : Z) (l : list charge) : Z :=
-  fold_right (fun c a => if key_eqb (c_key c) k && (c_ws c =? s) then 1 + a else a) 0 l.
-Definition gcount (k : key) (s : Z) (l : list grant) : Z :=
-  fold_right (fun g a => if key_eqb (g_key g) k && (g_ws g =? s) then 1 + a else a) 0 l.
-Definition psum (k : key) (s : Z) (l : list pass) : Z :=
-  fold_right (fun p a => if key_eqb (p_key p) k && (p_ws p =? s) then p_cost p + a else a) 0 l.
-Definition pcount (k : key) (s : Z) (l : list pass) : Z :=
-  fold_right (fun p a => if key_eqb (p_key p) k && (p_ws p =? s) then 1 + a else a) 0 l.
+Fixpoint csum (k : key) (s : Z) (l : list charge) : Z :=
+  match l with
+  | [] => 0
+  | c :: t => if key_eqb (c_key c) k && (c_ws c =? s) then c_cost c + csum k s t else csum k s t
+  end.
+Fixpoint ccount (k : key) (s : Z) (l : list charge) : Z :=
+  match l with
+  | [] => 0
+  | c :: t => if key_eqb (c_key c) k && (c_ws c =? s) then 1 + ccount k s t else ccount k s t
+  end.
+Fixpoint gcount (k : key) (s : Z) (l : list grant) : Z :=
+  match l with
+  | [] => 0
+  | g :: t => if key_eqb (g_key g) k && (g_ws g =? s) then 1 + gcount k s t else gcount k s t
+  end.
+Fixpoint psum (k : key) (s : Z) (l : list pass) : Z :=
+  match l with
+  | [] => 0
+  | p :: t => if key_eqb (p_key p) k && (p_ws p =? s) then p_cost p + psum k s t else psum k s t
+  end.
+Fixpoint pcount (k : key) (s : Z) (l : list pass) : Z :=
+  match l with
+  | [] => 0
+  | p :: t => if key_eqb (p_key p) k && (p_ws p =? s) then 1 + pcount k s t else pcount k s t
+  end.
 
 (* "has room" on the charged counter, and on the let-through count *)
 Definition has_room (w : world) (rq : request) (now : Z) (qd : Z * quota) : bool :=
